@@ -31,7 +31,19 @@ struct Sched {
   bool sparse = true;
   std::vector<int> dense;
   std::map<long, int> preempt;  // decision index -> actor id
+  // "r:<seed>,<stick>": a pseudo-random walk; at every decision the running actor is kept with
+  // probability stick/100 (if it is still runnable), otherwise a runnable actor is drawn uniformly.
+  // The seed is the generated input; the decisions taken are reported, so a failing walk is replayed
+  // (and minimised) as an explicit sparse schedule.
+  bool rnd = false;
+  unsigned long long rstate = 1;
+  int stick = 50;
+  unsigned next_rand() {
+    rstate = rstate * 6364136223846793005ULL + 1442695040888963407ULL;
+    return (unsigned)(rstate >> 33);
+  }
   long decision = 0;
+  std::map<int, long> recency;  // actor id -> decision at which it last got the token
   int last = -1;
   bool deadlock = false;
   // Fallback (DESIGN 1.3): if the token holder does not reach a scheduling point for STALL_MS (it
@@ -132,16 +144,35 @@ struct Sched {
         if (a.st == RUNNABLE) r.push_back((int)i);
         if (!a.daemon && a.st != DONE) userdone = false;
       }
-      if (userdone) return;
+      if (userdone) {
+        // let the daemons (the dispatcher) finish the work that is already queued: an out-event
+        // posted by the last user step is still delivered (or not) under the oracle's eyes
+        std::vector<int> d;
+        for (int x : r)
+          if (actors[x].daemon) d.push_back(x);
+        if (d.empty()) return;
+        r = d;
+      }
       if (r.empty()) {
         deadlock = true;
         return;
       }
+      // default: keep running the current actor; if it cannot run, the most recently run actor
+      // that can (after the dispatcher has served a call, the caller goes on), else the lowest id
       int def = r[0];
+      long best = -1;
       for (int x : r)
-        if (x == last) def = last;  // default: keep running the current actor
+        if (recency[x] > best) {
+          best = recency[x];
+          def = x;
+        }
       int pick = def;
-      if (sparse) {
+      if (rnd) {
+        bool keep = false;
+        for (int x : r)
+          if (x == last) keep = true;
+        if (!(keep && (int)(next_rand() % 100) < stick)) pick = r[next_rand() % r.size()];
+      } else if (sparse) {
         auto it = preempt.find(decision);
         if (it != preempt.end())
           for (int x : r)
@@ -156,12 +187,21 @@ struct Sched {
       decisions.push_back(o.str());
       ++decision;
       last = pick;
+      recency[pick] = decision + 1;
       current = pick;
       cv.notify_all();
     }
   }
   void parse(const std::string& s) {  // "s:12=1,30=2" or "d:1,0,2"
     if (s.size() < 2) return;
+    if (s[0] == 'r') {
+      rnd = true;
+      auto c = s.find(',');
+      rstate = std::stoull(s.substr(2, c == std::string::npos ? c : c - 2)) * 2 + 1;
+      if (c != std::string::npos) stick = std::stoi(s.substr(c + 1));
+      for (int i = 0; i < 3; ++i) next_rand();
+      return;
+    }
     sparse = s[0] == 's';
     std::stringstream ss(s.substr(2));
     std::string item;
